@@ -117,7 +117,8 @@ fn strip_generics(p: &str) -> String {
         let is_generic = b[i] == '<' && i > 0 && (b[i - 1].is_alphanumeric() || b[i - 1] == '_');
         if is_turbofish || is_generic {
             let mut depth = 0i32;
-            let mut j = if is_turbofish { i + 2 } else { i };
+            let start = if is_turbofish { i + 2 } else { i };
+            let mut j = start;
             while j < b.len() {
                 if b[j] == '<' {
                     depth += 1;
@@ -129,6 +130,23 @@ fn strip_generics(p: &str) -> String {
                 }
                 j += 1;
             }
+            // strip only lists made of bare type parameters / lifetimes (`<T, Env>`, `<'a, NAME>`):
+            // concrete arguments (`Sub<u16>` vs `Sub<SeqNr>`) distinguish impls and must stay
+            let inner: String = b[start + 1..j.min(b.len())].iter().collect();
+            let only_params = inner.split(',').all(|a| {
+                let a = a.trim();
+                a.starts_with('\'') || (!a.is_empty() && a.chars().next().unwrap().is_uppercase() && a.chars().all(|c| c.is_alphanumeric() || c == '_'))
+            });
+            if only_params || inner.starts_with("impl ") {
+                i = j + 1;
+                continue;
+            }
+            // keep, but normalise turbofish `::<` to `<`
+            if is_turbofish {
+                i += 2;
+            }
+            let kept: String = b[i..(j + 1).min(b.len())].iter().collect();
+            out.push_str(&strip_inner(&kept));
             i = j + 1;
             continue;
         }
@@ -136,6 +154,15 @@ fn strip_generics(p: &str) -> String {
         i += 1;
     }
     out
+}
+
+fn strip_inner(s: &str) -> String {
+    // `<A<T>, B>`: recurse into the arguments
+    if s.len() < 2 {
+        return s.to_string();
+    }
+    let inner = &s[1..s.len() - 1];
+    format!("<{}>", strip_generics(inner))
 }
 
 fn dpath(tcx: TyCtxt<'_>, did: DefId) -> String {
@@ -672,7 +699,7 @@ impl rustc_driver::Callbacks for Cb {
         let Ok(out_path) = std::env::var("UTPSA_OUT") else {
             return Compilation::Continue;
         };
-        let mut top: Vec<(&'static str, J)> = vec![("crate", s(cname)), ("schema", J::Int(4))];
+        let mut top: Vec<(&'static str, J)> = vec![("crate", s(cname)), ("schema", J::Int(6))];
         top.push(("is_test", J::Bool(tcx.sess.is_test_crate())));
 
         // ------------------------------------------------------------ ADTs, consts, impls
